@@ -596,6 +596,21 @@ def capsRow (caps : List Nat) : String :=
   let l := joinWith "," (spares.map toString)
   s!"spares={l} total={sumSatU32 spares} has={showBool has} iovlens={l}"
 
+/-- The lengths `clamp` leaves (`LimitedBuf::as_iovecs_mut`, traits.rs:992-1007). -/
+def clampLens : List Nat → Nat → List Nat
+  | [], _ => []
+  | n :: ns, left => if n ≤ left then n :: clampLens ns (left - n) else left :: clampLens ns 0
+
+/-- `bufs lcaps <arr|tup> <c,c,…> <limit>`: the same array / tuple of empty
+vectors under a `LimitedBuf` (`MSlice.limited (.arr …) limit`; tied to those
+definitions by `lcaps_row_sound` in `Props/C14.lean`). -/
+def lcapsRow (caps : List Nat) (limit : Nat) : String :=
+  let spares := caps.map fun c => asU32 (c - 0)
+  let has := limit != 0 && caps.any fun c => decide (c > 0)
+  let l := joinWith "," (spares.map toString)
+  let iov := joinWith "," ((clampLens spares limit).map toString)
+  s!"spares={l} total={asU32 (min (sumSatU32 spares) limit)} has={showBool has} iovlens={iov}"
+
 /-- Comma separated list; `.` is the empty list. -/
 def decList {α : Type} (f : String → Option α) (s : String) : Option (List α) :=
   if s == "." then some [] else (s.splitOn ",").mapM f
@@ -656,6 +671,13 @@ def stepLine (st : St) (toks : List String) : St × List String :=
           && caps.all (· ≤ 8589934592) then (st, [capsRow caps])
       else (st, ["bad-op"])
     | none => (st, ["bad-op"])
+  | ["bufs", "lcaps", k, cs, l] =>
+    match decList decUsize cs, decUsize l with
+    | some caps, some l =>
+      if (k == "arr" || k == "tup") && arityOk k caps.length && caps.length ≥ 1
+          && caps.all (· ≤ 8589934592) then (st, [lcapsRow caps l])
+      else (st, ["bad-op"])
+    | _, _ => (st, ["bad-op"])
   | ["bufs", "wall", ks] =>
     match st.obj, decList decUsize ks with
     | .r b, some ks =>
